@@ -11,6 +11,19 @@ fn dump_small(path: &str) {
     writeln!(s, "pub static BETWEEN_INC: [[u64;64];64] = {:?};", l.inclusive_between_lookup).unwrap();
     writeln!(s, "pub static BETWEEN_EXC: [[u64;64];64] = {:?};", l.exclusive_between_lookup).unwrap();
     std::fs::write(path, s).unwrap();
+    // value ranges of the evaluator's piece-square tables (checked entry by entry by c14_table_ranges)
+    let mut e = String::new();
+    writeln!(e, "// generated from /repo's eval.rs tables by `frules dump-small`; do not edit").unwrap();
+    for (name, endgame, max) in [("MIN_OPEN", false, false), ("MAX_OPEN", false, true), ("MIN_END", true, false), ("MAX_END", true, true)] {
+        let mut v = [0i32; 6];
+        for p in 0..6 {
+            let it = (0..64).map(|s| if endgame { crate::eval::vh::endgame(p, s) } else { crate::eval::vh::opening(p, s) });
+            v[p] = if max { it.max().unwrap() } else { it.min().unwrap() };
+        }
+        writeln!(e, "pub static {}: [i32;6] = {:?};", name, v).unwrap();
+    }
+    let ep = std::path::Path::new(path).with_file_name("eval_consts.rs");
+    std::fs::write(ep, e).unwrap();
 }
 
 fn dump_magic(dir: &str) {
